@@ -39,14 +39,14 @@ package pipeline
 //@ extern slices.Clone
 //@ ensures? fresh(result) && len(result) == len(s)
 //@ ensures? forall(i, 0, len(s), result[i] == s[i])
-//@ func GleecePipeline.reduceControllers props C13,C14 havocs
+//@ func GleecePipeline.reduceControllers props C13,C19,C14 havocs
 //@ requires forall(k, 0, len(controllers), controllers[k].Struct.Annotations != nil)
 //@ loop 0 invariant forall(k, 0, len(controllers), controllers[k].Struct.Annotations != nil)
 // (stated for the moment the loop is entered - i.e. an assertion on what the sort established; the reductions
 // themselves may change any heap)
 //@ loop 0 invariant implies(_n == 0, forall(i, 0, len(controllers)-1, ctlBefore(controllers[i], controllers[i+1])))
 
-//@ func GleecePipeline.getReducedControllers props C13,C01,C14 havocs
+//@ func GleecePipeline.getReducedControllers props C13,C19,C01,C14 havocs
 //@ requires p != nil
 //@ ensures sorted: implies(result1 == nil, forall(i, 0, len(result0)-1, !(result0[i+1].Name < result0[i].Name)))
 
